@@ -102,7 +102,7 @@ BOUNDS = [0, 1, 127, 128, 129, 16383, 16384, 16385, 2097151, 2097152, 2097153, 2
 @register
 class C15(Base):
     id = 'C15'
-    ops = ['vi_len', 'vi_total', 'vi_hlen', 'vi_rlen', 'vi_try', 'vi_write', 'vi_read', 'vi_poll', 'vi_range']
+    ops = ['vi_len', 'vi_total', 'vi_hlen', 'vi_rlen', 'vi_try', 'vi_write', 'vi_read', 'vi_poll', 'vi_range', 'sched']
     rule = ('boundaries +-2 of every width, powers of 128 +-2, first invalid values, all continuation-bit patterns of '
             'up to five bytes with extreme payload bits (standalone reader and poll header machine, both families), '
             'random values, and hashed ranges (quick: windows around each boundary + random windows; thorough: all 2^28 '
@@ -147,6 +147,11 @@ class C15(Base):
                 for tail in ('eof', 'k4'):
                     cs.append('vi_poll %s %s %s' % (fam, pk.hx(p), tail))
                     hist(dist, 'vi_poll')
+                # the same header bytes delivered one per read with a Pending before each (the limit on the number
+                # of length bytes must live in the caller-owned state, not in one poll call)
+                if len(p) >= 1:
+                    cs.append('sched %s %s eof' % (fam, '.'.join('p.b%02x.c' % x for x in b'\x30' + p)))
+                    hist(dist, 'sched-header')
         if tier == 'quick':
             wins = []
             for b in (128, 16384, 2097152, 268435456):
@@ -203,6 +208,13 @@ class C15(Base):
                 want = str(n - 1 - r)
             if line != want:
                 return '%s(%d) = %s, the law gives %s' % (op, n, line, want)
+        elif op == 'sched':
+            b = bytes(int(a[1:], 16) for a in t[2].split('.') if a.startswith('b'))[1:]
+            if len(b) >= 4 and all(x & 0x80 for x in b[:4]):
+                f = fields(line)
+                if f.get('res') != 'err InvalidVarByteInt':
+                    return ('poll header machine fed %s one byte per read with Pendings: %s, expected InvalidVarByteInt'
+                            % (pk.hx(b), f.get('res')))
         elif op in ('vi_read', 'vi_poll'):
             b = bytes.fromhex(t[2 if op == 'vi_poll' else 1][1:])
             # reference reading: little-endian base 128, at most 4 bytes
@@ -240,6 +252,8 @@ class C15(Base):
             return len(t[1]) > 3
         if t[0] == 'vi_poll':
             return len(t[2]) > 3
+        if t[0] == 'sched':
+            return True
         return int(t[1]) >= 128
 
 
@@ -897,7 +911,9 @@ class C03(Base):
                         hist(dist, 'hdr+body')
             # maximal remaining lengths
             for a in (0x10, 0x20, 0x30, 0x32, 0x40, 0x82, 0x90, 0xa2, 0xe0, 0xf0):
-                for rlb in (b'\xff\xff\xff\x7f', b'\xff\xff\x7f', b'\x80\x80\x80\x01'):
+                for rlb in (b'\xff\xff\xff\x7f', b'\xff\xff\x7f', b'\x80\x80\x80\x01',
+                            # five and more length bytes (must be refused before any allocation)
+                            b'\x80\x80\x80\x80\x00', b'\x80\x80\x80\x80\x01', b'\xff\xff\xff\xff\x0f', b'\x80\x80\x80\x80\x80\x00'):
                     cs.append('dec %s %s' % (fam, pk.hx(bytes([a]) + rlb + b'\x00\x04MQTT\x04\x02')))
                     hist(dist, 'maxlen')
         pool, _ = frame_pool(rng, tier)
@@ -1088,7 +1104,7 @@ class C11(DecBase):
 @register
 class C06(DecBase):
     id = 'C06'
-    ops = ['dec']
+    ops = ['dec', 'sched']
     rule = ('byte strings that start with a complete frame: valid encodings, spellings, fault-catalogue frames, corruptions, '
             'random bytes, with and without random suffixes; all error variants. Judge on the implementation\'s three answers: '
             'poll accepts P => blocking and async return P; poll rejects with E != InvalidRemainingLength => both return E; '
@@ -1103,10 +1119,38 @@ class C06(DecBase):
             body = bytes(rng.choice([0, 0, 0, 1, 2, 3, 4, 5, 0x26, 0x1f, rng.getrandbits(8)]) for _ in range(rl))
             cs.append('dec %s %s' % (fam, pk.hx(bytes([a, rl]) + body + bytes(rng.getrandbits(8) for _ in range(rng.randint(0, 3))))))
             hist(dist, 'random-frame')
+        # the agreement must not depend on the transport handing the poll decoder everything at once: the same
+        # frames delivered in small chunks (no Pending) must give the poll result of the one-shot `dec`
+        self.chunked = {}
+        small = [c for c in cs if c.startswith('dec ') and 4 < len(c.split()[2]) < 200]
+        for c in rng.sample(small, min(len(small), 1500 if tier == 'quick' else 20000)):
+            _, fam, hx_ = c.split()
+            b = bytes.fromhex(hx_[1:])
+            k = rng.choice([1, 1, 2, 3])
+            atoms = []
+            for j, x in enumerate(b):
+                atoms.append('b%02x' % x)
+                if (j + 1) % k == 0:
+                    atoms.append('c')
+            sc = 'sched %s %s eof' % (fam, '.'.join(atoms))
+            self.chunked[sc] = c
+            cs.append(sc)
+            hist(dist, 'chunked-poll')
         return cs, dist
+
+    def context(self, cases, act):
+        return {c: lib.normalize(a) for c, a in zip(cases, act) if c.startswith('dec ')}
 
     def judge(self, case, line, spec, ctx, i):
         f = fields(line)
+        if case.startswith('sched '):
+            ref = ctx.get(self.chunked.get(case, ''))
+            if ref is not None:
+                want = fields(ref).get('poll', '')
+                if f.get('res') != want:
+                    return ('poll decoder fed in small chunks returns %s, fed at once %s (and the other decoders agree with the latter)'
+                            % (f.get('res', '')[:100], want[:100]))
+            return None
         blk, asy, pol = f.get('block', ''), f.get('async', ''), f.get('poll', '')
         # blocking = async with EOF mapped to incomplete
         want = 'none' if asy == 'err IoError UnexpectedEof' else asy
@@ -1126,9 +1170,13 @@ class C06(DecBase):
 
     def project(self, case, line):
         f = fields(line)
+        if case.startswith('sched '):
+            return 'res=' + f.get('res', '')
         return ';'.join('%s=%s' % (k, f.get(k, '')) for k in ('hdr', 'block', 'async', 'poll'))
 
     def nontrivial(self, case, line):
+        if case.startswith('sched '):
+            return True
         b = bytes.fromhex(case.split()[2][1:])
         fi = frame_info(b)
         return fi is not None and len(b) >= fi[0] + fi[1]
